@@ -93,6 +93,123 @@ def parseSerial (index : Nat) (d : Bytes) : Except PErr (Nat × Msg) :=
     .ok (toConsume, fromHeaders index ((2023 - 1970) * 365 * 24 * 60 * 60) 0 [0x44, 0x4c, 0x53, 0] h add payload)
   | _ => .error .notEnough
 
+/-! ### compiled-code replacements (`@[csimp]`, proved equal): parsing without measuring the whole remaining input -/
+
+def hasLen : Bytes → Nat → Bool
+  | _, 0 => true
+  | [], _ + 1 => false
+  | _ :: t, n + 1 => hasLen t n
+
+theorem hasLen_iff (d : Bytes) (n : Nat) : hasLen d n = true ↔ n ≤ d.length := by
+  induction d generalizing n with
+  | nil => cases n <;> simp [hasLen]
+  | cons x t ih => cases n <;> simp [hasLen, ih]
+
+theorem hasLen_false_iff (d : Bytes) (n : Nat) : hasLen d n = false ↔ d.length < n := by
+  rw [← Bool.not_eq_true, hasLen_iff]; omega
+
+def parseStorageFast (index : Nat) (d : Bytes) : Except PErr (Nat × Msg) :=
+  if !hasLen d 20 then .error .notEnough else
+  if !isPat storagePat d then .error .invalid else
+  match d.drop 16 with
+  | htyp :: mcnt :: l1 :: l2 :: _ =>
+    let h : StdHdr := { htyp, mcnt, len := l1.toNat * 256 + l2.toNat }
+    if h.len < h.size then .error .invalid else
+    if !hasLen (d.drop 16) h.len then .error .notEnough else
+    let toConsume := 16 + h.len
+    if hasLen (d.drop toConsume) 4 && !isPat storagePat (d.drop toConsume) && markerInside storagePat d toConsume then .error .invalid else
+    let payload := (d.drop (16 + h.size)).take (h.len - h.size)
+    let add := (d.drop 20).take (h.size - 4)
+    .ok (toConsume, fromHeaders index (le32 ((d.drop 4).take 4)) (le32 ((d.drop 8).take 4)) ((d.drop 12).take 4) h add payload)
+  | _ => .error .notEnough
+
+@[csimp] theorem parseStorage_eq_fast : @parseStorage = @parseStorageFast := by
+  funext index d
+  unfold parseStorage parseStorageFast
+  by_cases h20 : d.length < 20
+  · have : hasLen d 20 = false := (hasLen_false_iff d 20).mpr h20
+    simp [h20, this]
+  · have h1 : hasLen d 20 = true := (hasLen_iff d 20).mpr (by omega)
+    simp only [h20, h1, if_false, Bool.not_true, Bool.false_eq_true]
+    split
+    · rfl
+    · generalize hd : d.drop 16 = l
+      match l, hd with
+      | [], _ => rfl
+      | [_], _ => rfl
+      | [_, _], _ => rfl
+      | [_, _, _], _ => rfl
+      | htyp :: mcnt :: l1 :: l2 :: rest, hd =>
+        simp only []
+        split
+        · rfl
+        · have hlen : (d.drop 16).length = d.length - 16 := by simp
+          by_cases hr : d.length - 16 < l1.toNat * 256 + l2.toNat
+          · have : hasLen (htyp :: mcnt :: l1 :: l2 :: rest) (l1.toNat * 256 + l2.toNat) = false := by
+              rw [hasLen_false_iff, ← hd]; omega
+            simp [hr, this]
+          · have : hasLen (htyp :: mcnt :: l1 :: l2 :: rest) (l1.toNat * 256 + l2.toNat) = true := by
+              rw [hasLen_iff, ← hd]; omega
+            simp only [hr, this, if_false, Bool.not_true, Bool.false_eq_true]
+            have e2 : decide (d.length - (16 + (l1.toNat * 256 + l2.toNat)) ≥ 4) = hasLen (d.drop (16 + (l1.toNat * 256 + l2.toNat))) 4 := by
+              by_cases h4 : d.length - (16 + (l1.toNat * 256 + l2.toNat)) ≥ 4
+              · have : hasLen (d.drop (16 + (l1.toNat * 256 + l2.toNat))) 4 = true := by rw [hasLen_iff]; simp; omega
+                simp [h4, this]
+              · have : hasLen (d.drop (16 + (l1.toNat * 256 + l2.toNat))) 4 = false := by rw [hasLen_false_iff]; simp; omega
+                simp [h4, this]
+            rw [e2]
+
+def parseSerialFast (index : Nat) (d : Bytes) : Except PErr (Nat × Msg) :=
+  if !hasLen d 8 then .error .notEnough else
+  if !isPat serialPat d then .error .invalid else
+  match d.drop 4 with
+  | htyp :: mcnt :: l1 :: l2 :: _ =>
+    let h : StdHdr := { htyp, mcnt, len := l1.toNat * 256 + l2.toNat }
+    if h.len < h.size then .error .invalid else
+    if !hasLen (d.drop 4) h.len then .error .invalid else
+    let toConsume := 4 + h.len
+    if hasLen (d.drop toConsume) 4 && !isPat serialPat (d.drop toConsume) && markerInside serialPat d toConsume then .error .invalid else
+    let payload := (d.drop (4 + h.size)).take (h.len - h.size)
+    let add := (d.drop 8).take (h.size - 4)
+    .ok (toConsume, fromHeaders index ((2023 - 1970) * 365 * 24 * 60 * 60) 0 [0x44, 0x4c, 0x53, 0] h add payload)
+  | _ => .error .notEnough
+
+@[csimp] theorem parseSerial_eq_fast : @parseSerial = @parseSerialFast := by
+  funext index d
+  unfold parseSerial parseSerialFast
+  by_cases h8 : d.length < 8
+  · have : hasLen d 8 = false := (hasLen_false_iff d 8).mpr h8
+    simp [h8, this]
+  · have h1 : hasLen d 8 = true := (hasLen_iff d 8).mpr (by omega)
+    simp only [h8, h1, if_false, Bool.not_true, Bool.false_eq_true]
+    split
+    · rfl
+    · generalize hd : d.drop 4 = l
+      match l, hd with
+      | [], _ => rfl
+      | [_], _ => rfl
+      | [_, _], _ => rfl
+      | [_, _, _], _ => rfl
+      | htyp :: mcnt :: l1 :: l2 :: rest, hd =>
+        simp only []
+        split
+        · rfl
+        · have hlen : (d.drop 4).length = d.length - 4 := by simp
+          by_cases hr : d.length - 4 < l1.toNat * 256 + l2.toNat
+          · have : hasLen (htyp :: mcnt :: l1 :: l2 :: rest) (l1.toNat * 256 + l2.toNat) = false := by
+              rw [hasLen_false_iff, ← hd]; omega
+            simp [hr, this]
+          · have : hasLen (htyp :: mcnt :: l1 :: l2 :: rest) (l1.toNat * 256 + l2.toNat) = true := by
+              rw [hasLen_iff, ← hd]; omega
+            simp only [hr, this, if_false, Bool.not_true, Bool.false_eq_true]
+            have e2 : decide (d.length - (4 + (l1.toNat * 256 + l2.toNat)) ≥ 4) = hasLen (d.drop (4 + (l1.toNat * 256 + l2.toNat))) 4 := by
+              by_cases h4 : d.length - (4 + (l1.toNat * 256 + l2.toNat)) ≥ 4
+              · have : hasLen (d.drop (4 + (l1.toNat * 256 + l2.toNat))) 4 = true := by rw [hasLen_iff]; simp; omega
+                simp [h4, this]
+              · have : hasLen (d.drop (4 + (l1.toNat * 256 + l2.toNat))) 4 = false := by rw [hasLen_false_iff]; simp; omega
+                simp [h4, this]
+            rw [e2]
+
 structure ItSt where
   index : Nat
   processed : Nat := 0
